@@ -283,9 +283,12 @@ struct Worker {
 			// attribution (DESIGN 3.5): does the same operation fail when it is the first thing a fresh process does?
 			Json iso = out.last_op >= 0 ? eng->isolate(plan, out.last_op) : Json();
 			if (!iso.is_null()) {
-				ChildOutcome r = ctx.run_ref(iso);
-				if (r.status != "finished") {
-					Json oos = Json::object(); oos["out_of_scope"] = sig; oos["op"] = out.last_op; return oos;
+				// an engine may name several candidate isolations ("any_of"): one failing alone is enough to call the failure input-level
+				std::vector<Json> cands;
+				if (iso.has("any_of")) cands = iso.at("any_of").a; else cands.push_back(iso);
+				for (auto & c : cands) {
+					ChildOutcome r = ctx.run_ref(c);
+					if (r.status != "finished") { Json oos = Json::object(); oos["out_of_scope"] = sig; oos["op"] = out.last_op; return oos; }
 				}
 				Json viol = Json::object(); viol["clause"] = "crash_in_context"; viol["detail"] = sig; viol["op"] = out.last_op; return viol;
 			}
